@@ -58,7 +58,7 @@ def conc_phase(ctx, racebin, rounds_per_variant, seed):
 
 
 def run(ctx):
-    res, broken = sc.proof_step(ctx, "C09")
+    res, broken = sc.proof_step(ctx, "C09", need_fetch=False)
     binp = sc.build_all()
     ml, mlout = sc.build_driver()
     quick = ctx.tier == "quick"
